@@ -272,6 +272,7 @@ type Exec struct {
 	forkSmallTables bool
 	crossCheck   bool
 	Fallbacks    int
+	pendingBound int64
 	fs           *fsState
 	guards       []*smt.Term // conditions of the speculated sides being executed
 	rewound      int // index of the next draw to reuse, -1 = not rewound / diverged
